@@ -146,6 +146,7 @@ def c01(ctx):
     abi.ilp32_monitor(ctx, ['aead'])
     ctx.rule = AEAD_RULE + " Long cases: fixed lengths {65535..65539, 128 KiB+2, 256 KiB, 256 KiB+5, 1 MiB+1} for every variant + random; thorough also 2^32+5 and 2^31+3 bytes in place. Battery: encrypt -> length check -> decrypt (separate and in-place) -> compare; in-place encrypt == out-of-place."
     ctx.rule += ' Supplementary ILP32 monitor: the portable sources compiled with gcc/clang -m32 (4-byte size_t, pointers and long; freestanding runtime, every buffer against a PROT_NONE page) and the production archive run the same deterministic case list (harness/h_abi.c, section aead) as the model; the outputs are compared line by line.'
+    ctx.rule += ' Corpus replay: every entry of model/pinned/special.txt (inputs found with the model alone for which an internal word - chaining value, keystream, tag half, DRBG state - is 0 / ffffffff / equal to its neighbour, or a forged SIV tag is wrong in a structured way: probability about 2^-32 per random input) goes through the same oracle.'
     ctx.exhaustive = False
     ctx.assumptions += ["overlapping-but-not-identical buffers are outside the contract and never generated",
                         "contents and lengths above the window are sampled"]
@@ -177,6 +178,7 @@ def c02(ctx):
     ctx.rule = AEAD_RULE + (" Oracle: bit-serial NLFSR model written from the specification (pinned to KATs); every case: library "
                             "ciphertext||tag == model, a second encryption is identical, the model's packet (foreign encryptor) opens to the model's plaintext.")
     ctx.rule += ' Supplementary ILP32 monitor: the portable sources compiled with gcc/clang -m32 (4-byte size_t, pointers and long; freestanding runtime, every buffer against a PROT_NONE page) and the production archive run the same deterministic case list (harness/h_abi.c, section aead) as the model; the outputs are compared line by line.'
+    ctx.rule += ' Corpus replay: every entry of model/pinned/special.txt (inputs found with the model alone for which an internal word - chaining value, keystream, tag half, DRBG state - is 0 / ffffffff / equal to its neighbour, or a forged SIV tag is wrong in a structured way: probability about 2^-32 per random input) goes through the same oracle.'
     ctx.exhaustive = False
     ctx.assumptions += ["a deviation keyed to one specific 32-bit word value would need ~2^32 samples",
                         "the model itself is anchored only by the pinned KAT vectors (bytes < 0x21, lengths <= 32) and by being a literal transcription of the specification"]
@@ -203,6 +205,7 @@ def c03(ctx):
                             "bit flips in body / AD / nonce / key, truncation, extension, AD-message boundary shifts by 1..4, AD-body swap, clen 0..7; "
                             "expected verdict is exact: accept iff received tag == model tag for the model-recovered plaintext.")
     ctx.rule += ' Supplementary ILP32 monitor: the portable sources compiled with gcc/clang -m32 (4-byte size_t, pointers and long; freestanding runtime, every buffer against a PROT_NONE page) and the production archive run the same deterministic case list (harness/h_abi.c, section aead) as the model; the outputs are compared line by line.'
+    ctx.rule += ' Corpus replay: every entry of model/pinned/special.txt (inputs found with the model alone for which an internal word - chaining value, keystream, tag half, DRBG state - is 0 / ffffffff / equal to its neighbour, or a forged SIV tag is wrong in a structured way: probability about 2^-32 per random input) goes through the same oracle.'
     ctx.exhaustive = False
     ctx.assumptions += ["2^64-1 wrong tags per packet are sampled structurally, not enumerated"]
 
@@ -228,6 +231,7 @@ def c04(ctx):
                             "out of place, output region pre-filled with recorded non-zero junk; after every rejection every byte of "
                             "m[0..clen-8) is read back and must be zero; long packets up to 1 MiB (thorough: 16 MiB); one forged packet per variant with a 2^32+16 byte body (thorough; quick: 2^22+16) opened in place, whole buffer read back.")
     ctx.rule += ' Supplementary ILP32 monitor: the portable sources compiled with gcc/clang -m32 (4-byte size_t, pointers and long; freestanding runtime, every buffer against a PROT_NONE page) and the production archive run the same deterministic case list (harness/h_abi.c, section aead/siv) as the model; the outputs are compared line by line.'
+    ctx.rule += ' Corpus replay: every entry of model/pinned/special.txt (inputs found with the model alone for which an internal word - chaining value, keystream, tag half, DRBG state - is 0 / ffffffff / equal to its neighbour, or a forged SIV tag is wrong in a structured way: probability about 2^-32 per random input) goes through the same oracle.'
     ctx.exhaustive = False
 
 
@@ -254,6 +258,7 @@ def c08(ctx):
                             "the model of the SIV construction for arbitrary bodies and tags (a changed tag changes keystream and expected tag), "
                             "nonce bytes 0..3 and 4..11 flipped separately, clen 0..7.")
     ctx.rule += ' Supplementary ILP32 monitor: the portable sources compiled with gcc/clang -m32 (4-byte size_t, pointers and long; freestanding runtime, every buffer against a PROT_NONE page) and the production archive run the same deterministic case list (harness/h_abi.c, section siv) as the model; the outputs are compared line by line.'
+    ctx.rule += ' Corpus replay: every entry of model/pinned/special.txt (inputs found with the model alone for which an internal word - chaining value, keystream, tag half, DRBG state - is 0 / ffffffff / equal to its neighbour, or a forged SIV tag is wrong in a structured way: probability about 2^-32 per random input) goes through the same oracle.'
     ctx.exhaustive = False
 
 
@@ -280,6 +285,7 @@ def c09(ctx):
                             "(one bit / one byte / suffix of the message, one bit of the AD; mlen >= 8): tags differ and body1^body2 != m1^m2; "
                             "positive control: the same pairs through plain AEAD are related on the common prefix.")
     ctx.rule += ' Supplementary ILP32 monitor: the portable sources compiled with gcc/clang -m32 (4-byte size_t, pointers and long; freestanding runtime, every buffer against a PROT_NONE page) and the production archive run the same deterministic case list (harness/h_abi.c, section siv) as the model; the outputs are compared line by line.'
+    ctx.rule += ' Corpus replay: every entry of model/pinned/special.txt (inputs found with the model alone for which an internal word - chaining value, keystream, tag half, DRBG state - is 0 / ffffffff / equal to its neighbour, or a forged SIV tag is wrong in a structured way: probability about 2^-32 per random input) goes through the same oracle.'
     ctx.exhaustive = False
     ctx.assumptions += ["pair relations can coincide by chance with probability <= 2^-64 per pair"]
 
@@ -419,6 +425,7 @@ def c10(ctx):
                 "same case list on every build. class = (length | long bucket, byte class, placement, offset). Oracle: model of the README MDPH "
                 "construction over the bit-serial TinyJAMBU-256 NLFSR; tools/hashref compiled as is as second opinion. Supplementary census: the header's byte-order decision evaluated by the preprocessor under the predefined macros of 12 big-endian and 10 little-endian clang targets.")
     ctx.rule += ' Supplementary ILP32 monitor: the portable sources compiled with gcc/clang -m32 (4-byte size_t, pointers and long; freestanding runtime, every buffer against a PROT_NONE page) and the production archive run the same deterministic case list (harness/h_abi.c, section hash) as the model; the outputs are compared line by line.'
+    ctx.rule += ' Corpus replay: every entry of model/pinned/special.txt (inputs found with the model alone for which an internal word - chaining value, keystream, tag half, DRBG state - is 0 / ffffffff / equal to its neighbour, or a forged SIV tag is wrong in a structured way: probability about 2^-32 per random input) goes through the same oracle.'
     ctx.exhaustive = False
     ctx.assumptions += ["message contents are sampled (6 byte classes), lengths above the dense window are sampled"]
 
@@ -439,6 +446,7 @@ def c11(ctx):
                 "with sizes from {0..18,30..33,47..49,63..65,100,1000}; (d) random interleaved histories of init/reinit/update/finalize/free/overwrite-with-"
                 "stale-copy over 4 state objects, each judged against a shadow concatenation (one-shot + model); thorough: update(7) + update(2^32+46) and update(5) + update(2^32+3) against the same bytes fed in pieces below 2^32. class = (n, composition mask) or history index.")
     ctx.rule += ' Supplementary ILP32 monitor: the portable sources compiled with gcc/clang -m32 (4-byte size_t, pointers and long; freestanding runtime, every buffer against a PROT_NONE page) and the production archive run the same deterministic case list (harness/h_abi.c, section hash) as the model; the outputs are compared line by line.'
+    ctx.rule += ' Corpus replay: every entry of model/pinned/special.txt (inputs found with the model alone for which an internal word - chaining value, keystream, tag half, DRBG state - is 0 / ffffffff / equal to its neighbour, or a forged SIV tag is wrong in a structured way: probability about 2^-32 per random input) goes through the same oracle.'
     ctx.exhaustive = False
     ctx.extra_cov["exhaustive_subspace"] = "all compositions of n <= %d (sum 2^(n-1) = %d sequences) on every build" % (N, 2 ** N - 1)
     ctx.assumptions += ["finalized states are never continued without reinit (unspecified)"]
@@ -531,6 +539,7 @@ def c15(ctx):
                 "every block compared with the shadow; thorough: ONE generate call of 2^32+7 bytes equals the stream of 4096 one-MiB calls from an identically seeded object, 4096 entropy requests. Relational: different initial seeds + identical feed/reseed material => different streams. "
                 "class = history index (all histories distinct by construction).")
     ctx.rule += ' Supplementary ILP32 monitor: the portable sources compiled with gcc/clang -m32 (4-byte size_t, pointers and long; freestanding runtime, every buffer against a PROT_NONE page) and the production archive run the same deterministic case list (harness/h_abi.c, section prng) as the model; the outputs are compared line by line.'
+    ctx.rule += ' Corpus replay: every entry of model/pinned/special.txt (inputs found with the model alone for which an internal word - chaining value, keystream, tag half, DRBG state - is 0 / ffffffff / equal to its neighbour, or a forged SIV tag is wrong in a structured way: probability about 2^-32 per random input) goes through the same oracle.'
     ctx.exhaustive = False
     ctx.assumptions += PRNG_ASSUME
 
@@ -843,6 +852,7 @@ def c20(ctx):
                 "Configurations of (a),(b): cmake production library, ASan/UBSan, {gcc, clang} x opt levels x {explicit_bzero, fallback}, and the same in strict ISO C mode (-std=c99); half of the clean calls leave recognisable garbage in the upper half of the 64-bit size register, as a caller passing `unsigned` may. "
                 "class = (type, history index) | (offset, size) | probe configuration.")
     ctx.rule += ' Supplementary ILP32 monitor: the portable sources compiled with gcc/clang -m32 (4-byte size_t, pointers and long; freestanding runtime, every buffer against a PROT_NONE page) and the production archive run the same deterministic case list (harness/h_abi.c, section clean) as the model; the outputs are compared line by line.'
+    ctx.rule += ' Corpus replay: every entry of model/pinned/special.txt (inputs found with the model alone for which an internal word - chaining value, keystream, tag half, DRBG state - is 0 / ffffffff / equal to its neighbour, or a forged SIV tag is wrong in a structured way: probability about 2^-32 per random input) goes through the same oracle.'
     ctx.exhaustive = False
     ctx.assumptions += ["copies of secrets in registers or compiler spills outside the wiped buffer are not part of the property",
                         "SecureZeroMemory / memset_s configurations do not exist on this host and are not run"]
